@@ -137,6 +137,9 @@ func Hist(v *vrt.Ctx) {
 			key := Key(v, v.Param("keylen"))
 			legacy = v.Or(legacy, typeChar(v, key[0]))
 			val := string([]byte{byte('A' + i)})
+			if v.Choice("empty-value", 2) == 1 {
+				val = "" // an empty value is a value: the latest write, not an absence
+			}
 			err := store.Put(ctx, []byte(key), []byte(val))
 			if m.typ == 0 {
 				v.Assert(err != nil, "C10/put-without-a-data-type-is-refused")
@@ -300,6 +303,9 @@ func Scoped(v *vrt.Ctx) {
 		key := Key(v, v.Param("keylen"))
 		legacy = v.Or(legacy, typeChar(v, key[0]))
 		val := string([]byte{byte('A' + i)})
+		if v.Choice("empty-value", 2) == 1 {
+			val = "" // an empty value is a value: the latest write, not an absence
+		}
 		v.Assert(store.Put(ctx, []byte(key), []byte(val)) == nil, "C10/put-ok")
 		ses, ln := m.scope()
 		m.e = append(m.e, entry{m.typ, ses, ln, key, val})
